@@ -8,7 +8,14 @@ filled by Read) as returned and render it when the history is over; input slices
 checked for modification and overwritten after the call; writes through Bytes(); two buffers of the type
 feeding each other; readers/writers that end with every error kind (io.EOF, wrapped EOF, other errors,
 with or without data, negative count, panic); arguments at the ends of the int range; a call that does
-not return, a panicking observer/constructor and out-of-range results are events TLC rejects."""
+not return, a panicking observer/constructor and out-of-range results are events TLC rejects.
+Systematic part: every operation with degenerate (nil, empty, 0, len, len+1, MaxInt) and ordinary arguments in
+every shape class of the buffer (never used, one byte, partly read, drained, Reset, Truncate(0), exactly full,
+full and partly read, just reallocated, after Grow, after a short WriteTo, after ReadFrom), followed by
+Unread*/ReadRune/WriteString/String; run-length encoded runs of 255..257 and 65535..65537 WriteByte/ReadByte
+calls and payloads; every io sentinel (plain and wrapped) and the type's own ErrTooLarge entering through
+the reader and the writer; real readers (bytes.Reader, strings.Reader, iotest Half/OneByte/DataErr) as
+ReadFrom sources."""
 import json
 
 from vlib import MachineryError, log
@@ -23,12 +30,12 @@ def run(ctx):
         ctx.tlc_mc(fam, "ByteBuffer", "ByteBuffer_MC_big.cfg", workers=16, timeout=3000, heap="16g")
     # 2. operation sequences out of the spec (two simulation levels per operation, see ByteBuffer_Gen)
     # depth 62 = Depth in the cfg = 30 operations
-    pdir, plans = ctx.tlc_plans(fam, "ByteBuffer_Gen", "ByteBuffer_Gen.cfg", num=ctx.q(200, 1200), depth=62)
+    pdir, plans = ctx.tlc_plans(fam, "ByteBuffer_Gen", "ByteBuffer_Gen.cfg", num=ctx.q(150, 1200), depth=62)
     # 3. execute on both implementations
     binary = ctx.go_build("c11")
     tex_f, std_f = ctx.path("tex.ndjson"), ctx.path("std.ndjson")
     out = ctx.harness(binary, ["-plans", pdir, "-out", tex_f, "-ref", std_f, "-seed", ctx.seed,
-                               "-hist", ctx.q(400, 3000), "-maxops", ctx.q(80, 150), "-hang", "20s"],
+                               "-hist", ctx.q(350, 3000), "-maxops", ctx.q(80, 150), "-hang", "20s"],
                       traces=[tex_f])
     stats = {}
     for ln in out.split("\n"):
@@ -44,7 +51,7 @@ def run(ctx):
     # 4a. the reference: bytes.Buffer itself must satisfy the spec, otherwise the spec is wrong
     tv, ev = ctx.traces_validated, ctx.events_validated
     rj_std = ctx.validate(fam, "ByteBuffer_Trace", "ByteBuffer_Trace.cfg", std, label="bytes.Buffer(reference)",
-                          chunk=30000, max_rejections=1)
+                          chunk=45000, max_rejections=1)
     ctx.extra["reference_traces_validated"] = ctx.traces_validated - tv
     ctx.extra["reference_events_validated"] = ctx.events_validated - ev
     ctx.traces_validated, ctx.events_validated = tv, ev
@@ -53,7 +60,7 @@ def run(ctx):
         raise MachineryError("ByteBuffer.tla disagrees with the real bytes.Buffer (spec error, says nothing "
                              "about tex.Buffer): event #%d %s" % (rj["line"], json.dumps(rj["event"])[:600]))
     # 4b. the verdict: what tex.Buffer did
-    rj = ctx.validate(fam, "ByteBuffer_Trace", "ByteBuffer_Trace.cfg", tex, label="tex.Buffer", chunk=30000)
+    rj = ctx.validate(fam, "ByteBuffer_Trace", "ByteBuffer_Trace.cfg", tex, label="tex.Buffer", chunk=45000)
     ctx.judge(rj)
     # which way tex's grow() went is a property of the implementation under test: a path that no history
     # took is reported in the evidence, it is not a machinery error (a refactored grow() may not have it)
@@ -86,12 +93,15 @@ def run(ctx):
         "math.MaxInt/MinInt arguments are carried as +-2147483647 (to the model: beyond any length); sizes that "
         "would really allocate (Read, successful Grow, NewSizedBuffer) stay <= 65536",
         "not goroutine-safe by contract (as bytes.Buffer): no concurrent histories",
+        "runs of n WriteByte / ReadByte calls are one event: replies are summarised in the harness as (calls that "
+        "succeeded, bytes in order, calls that failed, last error) and the model applies the closed form",
     ]
     return ctx.finish(
         rule="plans = TLC simulation of ByteBuffer.tla (one ticket per operation kind, payloads up to 512 bytes); "
              "histories = seeded random over all 24 operations with sizes at the free-space / half-capacity / 64 / "
              "512 thresholds and the ends of the int range, UTF-8 edge runes incl. negative, surrogates, > U+10FFFF, "
-             "8 reader / 5 writer endings; 4 constructors (+ NewBuffer(nil), spare capacity 0..600, sizes below the "
+             "15 reader / 12 writer endings, 6 kinds of ReadFrom source; shape x probe sweep (17 x 54 histories) and three "
+             "long-run histories (65535..65537); 4 constructors (+ NewBuffer(nil), spare capacity 0..600, sizes below the "
              "small-buffer size); a trace is one buffer lifetime",
         explanation="every call's result/error/panic and (Len, Bytes) afterwards, recorded from tex.Buffer, must be "
                     "an outcome the bytes.Buffer contract (ByteBuffer.tla) allows; the same operations recorded "
